@@ -56,6 +56,8 @@ func (e *Envelope) SetPayload(payload any) error {
 	e.envelope = &dsse.Envelope{
 		Payload:     base64.StdEncoding.EncodeToString(encodedBytes),
 		PayloadType: PayloadType,
+		// An empty list rather than nil, which Dump would write as null
+		Signatures: []dsse.Signature{},
 	}
 
 	return nil
